@@ -31,9 +31,10 @@ type fileRef struct {
 	Dir string `json:"dir"`
 }
 type vector struct {
-	Ctr    map[string]string `json:"ctr"`
-	Phases []string          `json:"phases"`
-	Expect [][]fileRef       `json:"expect"`
+	Ctr     map[string]string `json:"ctr"`
+	Phases  []string          `json:"phases"`
+	PortErr []string          `json:"porterr"`
+	Expect  [][]fileRef       `json:"expect"`
 }
 
 type fakeDocker struct {
@@ -171,6 +172,11 @@ func main() {
 			pmu.Lock()
 			cleaned[cid] = true
 			pmu.Unlock()
+			for _, bad := range v.PortErr {
+				if bad == cid {
+					return fmt.Errorf("failed to read ports: injected")
+				}
+			}
 			return nil
 		}).Run()
 		for pi, mode := range v.Phases {
